@@ -236,6 +236,11 @@ def run_case(case):
                 continue
             v = domain_value(cls, getattr(st, "scale", None), case["chunk"] * VALUES_PER_CASE + j, rnd)
             prior = rnd.getrandbits(16 * (nregs + 2)).to_bytes(2 * (nregs + 2), "big")
+            if j % 4 == 1:
+                # boundary contents of the setting's own registers: all ones (what a reader may take for 'no value'),
+                # all zeroes, only the top bit
+                own = [b"\xff\xff", b"\x00\x00", b"\x80\x00", b"\xff\x7f", b"\x00\xff"][(j // 4 + case["chunk"]) % 5] * nregs
+                prior = prior[:2] + own + prior[2 + 2 * nregs:]
             if v is None:
                 continue
             # arbitrary prior contents of the setting's registers and of its two neighbours
